@@ -1,6 +1,7 @@
 package c16
 
 import (
+	"bytes"
 	"context"
 	"errors"
 	"fmt"
@@ -13,7 +14,10 @@ import (
 
 	"github.com/ipfs/go-cid"
 	"github.com/ipni/go-libipni/announce"
+	"github.com/ipni/go-libipni/announce/gossiptopic"
+	"github.com/ipni/go-libipni/announce/message"
 	dstest "github.com/ipni/go-libipni/dagsync/test"
+	pubsub "github.com/libp2p/go-libp2p-pubsub"
 	"github.com/libp2p/go-libp2p/core/host"
 	"github.com/libp2p/go-libp2p/core/peer"
 	"github.com/multiformats/go-multihash"
@@ -47,8 +51,14 @@ func genVariant(t *rapid.T, topic bool) Case {
 		c.Variant = "host-topic"
 	}
 	n := rapid.IntRange(1, 10).Draw(t, "nsteps")
+	ops := []string{"close", "close", "direct", "direct", "next", "next", "uncache"}
+	if topic {
+		// a gossip message whose handling is parked inside the allow-peer callback (the watcher goroutine is then
+		// between dequeuing the message and taking the receiver's lock), and its release
+		ops = append(ops, "pubpark", "pubpark", "release")
+	}
 	for i := 0; i < n; i++ {
-		s := step{Op: rapid.SampledFrom([]string{"close", "close", "direct", "direct", "next", "next", "uncache"}).Draw(t, "op"), Cid: rapid.IntRange(0, 5).Draw(t, "cid"), Conc: rapid.IntRange(0, 2).Draw(t, "conc") == 0}
+		s := step{Op: rapid.SampledFrom(ops).Draw(t, "op"), Cid: rapid.IntRange(0, 5).Draw(t, "cid"), Conc: rapid.IntRange(0, 2).Draw(t, "conc") == 0}
 		c.Steps = append(c.Steps, s)
 	}
 	return c
@@ -87,13 +97,35 @@ func execute(t *testing.T, c Case) (viol string, hang string) {
 		h = dstest.MkTestHost(t)
 		topic = fmt.Sprintf("/verif/c16/%d", topicSeq.Add(1))
 	}
-	r, err := announce.NewReceiver(h, topic)
+	var opts []announce.Option
+	var psTopic *pubsub.Topic
+	gate := &parkGate{}
+	if c.Variant == "host-topic" {
+		tp, cancelPS, err := gossiptopic.MakeTopic(h, topic)
+		if err != nil {
+			return "MakeTopic: " + err.Error(), ""
+		}
+		defer cancelPS()
+		defer h.Close()
+		psTopic = tp
+		self := h.ID()
+		opts = append(opts, announce.WithTopic(tp), announce.WithAllowPeer(func(p peer.ID) bool {
+			if p == self {
+				gate.enter() // only gossip from this host itself parks; Direct calls name another peer
+			}
+			return true
+		}))
+		topic = ""
+	}
+	r, err := announce.NewReceiver(h, topic, opts...)
 	if err != nil {
 		return "NewReceiver: " + err.Error(), ""
 	}
+	defer gate.releaseAll()
 	pinfo := peer.AddrInfo{ID: gen.Keys()[0].ID}
+	pubSeq := 0
 	var calls []*call
-	closed := false   // a Close call has been started
+	closed := false       // a Close call has been started
 	pushes, nexts := 0, 0 // pushing Direct calls / Next calls started before any Close
 	seen := map[int]bool{}
 	start := func(s step) *call {
@@ -146,6 +178,9 @@ func execute(t *testing.T, c Case) (viol string, hang string) {
 			var missing string
 			if closed {
 				for i, cl := range calls {
+					if cl.op == "close" && gate.parked() > 0 {
+						continue // Close waits for the watcher, which the harness holds inside the allow-peer callback
+					}
 					select {
 					case <-cl.done:
 					default:
@@ -161,6 +196,9 @@ func execute(t *testing.T, c Case) (viol string, hang string) {
 					missing = fmt.Sprintf("%d of %d Next calls returned, %d must have (%d announcements)", fn, count("next"), wantN, pushes)
 				}
 				for i, cl := range calls {
+					if cl.op == "close" && gate.parked() > 0 {
+						continue
+					}
 					if cl.op == "uncache" || cl.op == "close" {
 						select {
 						case <-cl.done:
@@ -180,6 +218,37 @@ func execute(t *testing.T, c Case) (viol string, hang string) {
 		}
 	}
 	for i, s := range c.Steps {
+		if s.Op == "pubpark" || s.Op == "release" {
+			if psTopic == nil {
+				continue
+			}
+			if s.Op == "release" {
+				gate.releaseAll()
+				if h := settle(fmt.Sprintf("after step %d (release)", i)); h != "" {
+					return "", h
+				}
+				continue
+			}
+			if closed || gate.parked() > 0 {
+				continue // the subscription is cancelled / the watcher is already parked
+			}
+			gate.arm()
+			pubSeq++
+			var buf bytes.Buffer
+			m := message.Message{Cid: cidOf(1000 + pubSeq)}
+			_ = m.MarshalCBOR(&buf)
+			if err := psTopic.Publish(context.Background(), buf.Bytes()); err != nil {
+				return "", ""
+			}
+			deadline := time.Now().Add(prompt)
+			for gate.parked() == 0 && time.Now().Before(deadline) {
+				time.Sleep(100 * time.Microsecond)
+			}
+			if gate.parked() == 0 {
+				gate.disarm() // the message did not come back to this host's own subscription in time: nothing parked
+			}
+			continue
+		}
 		if s.Op == "uncache" {
 			// the model needs to know whether the un-cache precedes or follows neighbouring announcements
 			// of the same CID: it is ordered against them (not raced)
@@ -212,11 +281,22 @@ func execute(t *testing.T, c Case) (viol string, hang string) {
 			return "", h
 		}
 	}
-	// finally close; everything must return
+	// finally close; everything must return once the watcher is released
+	if gate.parked() > 0 && closed {
+		// calls other than Close must already have returned while the watcher is held (checked by settle above)
+	}
+	wasParked := gate.parked() > 0
 	if !closed {
 		closed = true
 		calls = append(calls, start(step{Op: "close"}))
 	}
+	if wasParked {
+		// Close is called while the watcher sits between dequeuing a message and the receiver's lock
+		if h := settle("after Close with the watcher held in the allow-peer callback"); h != "" {
+			return "", h
+		}
+	}
+	gate.releaseAll()
 	if h := settle("after the final Close"); h != "" {
 		return "", h
 	}
@@ -324,13 +404,63 @@ func runCase(t *testing.T) func(Case) pbt.Result {
 
 func TestC16_Histories(t *testing.T) {
 	pbt.Run(t, pbt.Config{Prop: "C16", Unit: "TestC16_Histories", TrackCurrent: true,
-		Rule: "histories of 1..10 calls over Close / Direct / Next / UncacheCid on a fresh receiver (without host; with a libp2p host and no topic), each call in its own goroutine, either awaited or started concurrently with the next; a counting model of the one-slot delivery channel (Directs that must have returned = min(pushes, consumers+1), Nexts = min(pushes, consumers)) says which calls may still be blocked; after Close every call, and four later calls, must return, Direct with the closed error, Close twice with nil, and the watcher goroutine must be gone; 'does not return' = not done after 2 s and reproduced twice more on fresh receivers. Non-trivial: >= 2 Close calls or a call after Close; distinct by case.",
+		Rule:        "histories of 1..10 calls over Close / Direct / Next / UncacheCid on a fresh receiver (without host; with a libp2p host and no topic), each call in its own goroutine, either awaited or started concurrently with the next; a counting model of the one-slot delivery channel (Directs that must have returned = min(pushes, consumers+1), Nexts = min(pushes, consumers)) says which calls may still be blocked; after Close every call, and four later calls, must return, Direct with the closed error, Close twice with nil, and the watcher goroutine must be gone; 'does not return' = not done after 2 s and reproduced twice more on fresh receivers. Non-trivial: >= 2 Close calls or a call after Close; distinct by case.",
 		Assumptions: []string{"2 s real time is 'promptly' (normal cost: microseconds); a non-return is only reported when it reproduces 3 of 3 times"},
 	}, genCase, runCase(t))
 }
 
 func TestC16_Topic(t *testing.T) {
 	pbt.Run(t, pbt.Config{Prop: "C16", Unit: "TestC16_Topic", TrackCurrent: true,
-		Rule: "the same histories and oracle as TestC16_Histories on a receiver with a fresh libp2p host and its own gossipsub topic (real pubsub subscription and watcher goroutine). Non-trivial: >= 2 Close calls or a call after Close; distinct by case.",
+		Rule: "the same histories and oracle as TestC16_Histories on a receiver with a fresh libp2p host and its own gossipsub topic (real pubsub subscription and watcher goroutine), extended with gossip messages whose handling is parked inside the allow-peer callback -- the watcher then sits between dequeuing a message and the receiver's lock while Close and the other calls run -- and their release; while the watcher is held only Close may wait. Non-trivial: >= 2 Close calls or a call after Close; distinct by case.",
 	}, genTopicCase, runCase(t))
+}
+
+// parkGate parks the goroutine that enters while armed until released.
+type parkGate struct {
+	mu    sync.Mutex
+	armed bool
+	ch    chan struct{}
+	nPark int
+}
+
+func (g *parkGate) arm() {
+	g.mu.Lock()
+	g.armed = true
+	if g.ch == nil {
+		g.ch = make(chan struct{})
+	}
+	g.mu.Unlock()
+}
+
+func (g *parkGate) disarm() { g.mu.Lock(); g.armed = false; g.mu.Unlock() }
+
+func (g *parkGate) enter() {
+	g.mu.Lock()
+	if !g.armed {
+		g.mu.Unlock()
+		return
+	}
+	g.armed = false // one goroutine per arming
+	ch := g.ch
+	g.nPark++
+	g.mu.Unlock()
+	<-ch
+	g.mu.Lock()
+	g.nPark--
+	g.mu.Unlock()
+}
+
+func (g *parkGate) parked() int { g.mu.Lock(); defer g.mu.Unlock(); return g.nPark }
+
+func (g *parkGate) releaseAll() {
+	g.mu.Lock()
+	if g.ch != nil {
+		close(g.ch)
+		g.ch = nil
+	}
+	g.armed = false
+	g.mu.Unlock()
+	for g.parked() > 0 {
+		time.Sleep(50 * time.Microsecond)
+	}
 }
